@@ -22,6 +22,7 @@ RULE = ("random sequences of all classes (quick N <= 40, thorough N <= 150) x 8 
         "non-trivial = at least 2 windows or a non-zero value")
 RULE += ("; added after the mutation rounds: size spelled as string / float; steps >= N; numpy-integer arguments; 600-900-residue low-complexity chains with windows 255..640; one user dictionary edited in place between calls; the first cases of every shard are judged again at its end")
 RULE += ("; round 5: user dictionaries with extra non-amino-acid keys mapping to arbitrary values")
+RULE += ("; round 7: sequences of 1001 and 1300 residues")
 EXHAUSTIVE = {"quick": False, "thorough": False}
 ASSUMPTIONS = [
     "Wootton-Federhen entropy base = number of letters of the reduced alphabet (predefined: its size; user: number "
@@ -30,7 +31,7 @@ ASSUMPTIONS = [
 ]
 REQUIRED = {"all": ["salted_objects", "type:WF", "type:LC", "type:LZW", "user_alphabets", "user_alphabet_switch_same_object",
                     "step_gt_1_partial_tail", "locality_windows", "wf_entropy_windows", "rejected_unknown_type",
-                    "rejected_long_window", "homopolymer_windows", "step_ge_N", "numpy_int_arguments", "windows_ge_255", "user_alphabets_with_extra_keys"]}
+                    "rejected_long_window", "homopolymer_windows", "step_ge_N", "numpy_int_arguments", "windows_ge_255", "user_alphabets_with_extra_keys", "longer_than_1000"]}
 SIZES = [2, 3, 4, 5, 6, 8, 10, 11, 12, 15, 18, 20]
 NSEQ = {"quick": 1000, "thorough": 8000}
 HI = {"quick": 40, "thorough": 150}
@@ -38,7 +39,7 @@ HI = {"quick": 40, "thorough": 150}
 
 def cases(tier, seed):
     rng = gen.sub_rng(seed, ID)
-    for n, letters in ((900, "QQQQQN"), (700, "GS"), (600, "KKKKE")):
+    for n, letters in ((900, "QQQQQN"), (700, "GS"), (600, "KKKKE"), (1001, "ACDEFGHIKLMNPQRSTVWY"), (1300, "GSQN")):
         yield {"s": "".join(rng.choice(letters) for _ in range(n)), "o": rng.randrange(1 << 30), "long": True}
     for i in range(NSEQ[tier]):
         cls = "lowcomplexity" if i % 5 == 0 else None
@@ -93,6 +94,8 @@ def judge(case, rep, S):
     if rep.counters.get("user_alphabets_with_extra_keys", 0) < _forms[1]:
         rep.cnt("user_alphabets_with_extra_keys", _forms[1] - rep.counters.get("user_alphabets_with_extra_keys", 0))
     N = len(seq)
+    if N > 1000:
+        rep.cnt("longer_than_1000")
     rng = gen.sub_rng(case["o"], ID)
     obj = SP(seq)
     if rng.random() < 0.2:
